@@ -113,7 +113,19 @@ func genClDoc(t *rapid.T) ClDoc {
 	n := rapid.SampledFrom([]int{1, 1, 2, 2, 3, 4, 6}).Draw(t, "n")
 	d := ClDoc{FinalNewline: rapid.IntRange(0, 3).Draw(t, "final") != 0}
 	for i := 0; i < n; i++ {
-		d.Entries = append(d.Entries, genClEntry(t, i == 0))
+		e := genClEntry(t, i == 0)
+		if i > 0 && rapid.IntRange(0, 3).Draw(t, "likePrev") == 0 {
+			// uploads in quick succession: same source, same maintainer, same timestamp, maybe same version / body
+			p := d.Entries[i-1]
+			e.Source, e.Who, e.Unix, e.OffMin = p.Source, p.Who, p.Unix, p.OffMin
+			switch rapid.IntRange(0, 2).Draw(t, "alsoSame") {
+			case 0:
+				e.Version = p.Version
+			case 1:
+				e.Body = p.Body
+			}
+		}
+		d.Entries = append(d.Entries, e)
 	}
 	if d.FinalNewline {
 		d.Trailing = rapid.SampledFrom([]int{0, 0, 1, 2}).Draw(t, "trailing")
